@@ -97,6 +97,30 @@ def explore_long(r, k, G, starts, n, stride):
             r.ctr['long_walks'] += 1
 
 
+def explore_equal_context(r, k, G, starts, n, seeds):
+    """Two spaced edits whose surroundings read the same: on non-periodic (LCG-driven) walks, every pair
+    of interior positions at least 3k+2 apart whose 2k-1 nucleotides around the position are textually
+    equal, every edit kind at both.  Anything remembered per local text instead of per state shows here."""
+    acc = U.A(G)
+    for start in starts:
+        for sd in seeds:
+            w = U.lcg_walk(G, start, n, sd)
+            if len(w) < n:
+                continue
+            lo, hi = 2 * k, n - 2 * k
+            ctx_ = {}
+            for p in range(lo, hi):
+                ctx_.setdefault(w[p - k + 1:p + k], []).append(p)
+            for ps in ctx_.values():
+                for p1, p2 in itertools.combinations(ps, 2):
+                    if p2 - p1 < 3 * k + 2 or w[p1 - 2 * k + 1:p1 - k + 1] == w[p2 - 2 * k + 1:p2 - k + 1]:
+                        continue
+                    for e1 in U.single_edits(w, p1, p1 + 1):
+                        for e2 in U.single_edits(w, p2, p2 + 1):
+                            edit_case(r, k, G, acc, start, w, [e1[:3], e2[:3]])
+                    r.ctr['equal_context_pairs'] += 1
+
+
 def check_case(r, kind, case):
     G = RP.graph_of(case)
     edit_case(r, case['k'], G, U.A(G), case['start'], case['w'], [tuple(e) for e in case['edits']])
@@ -123,6 +147,8 @@ def _w(chunk):
             st3 = [live[0], live[len(live) // 2], live[-1]]
             for n, stride in ((40, 1), (200, 7)) if quick else ((40, 1), (160, 3), (400, 9)):
                 explore_long(r, k, G, [st3[nstarts]], n, stride)
+            if k in (2, 3):
+                explore_equal_context(r, k, G, [st3[nstarts]], 16 * k + 12, range(4 if quick else 16))
             r.ctr['graphs_k%d' % k] += 1
             r.maxi('item_wall_s_%s_k%d' % (what, k), _t.time() - _t0)
             continue
@@ -174,7 +200,7 @@ def run(ctx):
                   'order2': 'first %d generated graphs of every (vertex count, threshold in {2,3}) stratum: %d graphs' % (6 if q else 12, len(st)),
                   'filter_graphs_k2_k3': len(fg), 'walks': 'length 3k+3 and 4k+5, at most %d non-default arc choices' % (1 if q else 2),
                   'single_edits': 'every position of [k, n-2k), every substitution, insertion and deletion',
-                  'double_edits': 'spacing >= 3k+2 on walks of length 7k+4 (subset of graphs and starts)',
+                  'equal_context_double_edits': 'LCG-driven walks of 16k+12 nt on the order-2/3 long-walk graphs: all position pairs >= 3k+2 apart with equal 2k-1-nt surroundings and different older context, every edit kind at both', 'double_edits': 'spacing >= 3k+2 on walks of length 7k+4 (subset of graphs and starts)',
                   'long_walks': 'rule-generated walks of 40 and 200 (40, 160, 400) nucleotides on filter graphs of order 2..5, every single edit at every (1st/7th; 1st/3rd/9th) interior position'}
     ctx.exhaustive = False
     ctx.rule = ('one case = (generated graph, start, walk, edit set): repair with indel handling on and heap 1e9 (also with the check of '
